@@ -98,7 +98,7 @@ func (p *c04Proc) kill() {
 	_ = p.cmd.Wait()
 }
 
-var reFatal = regexp.MustCompile(`(?m)^(fatal error|panic|runtime): (.*)$`)
+var c04ReFatal = regexp.MustCompile(`(?m)^(fatal error|panic|runtime): (.*)$`)
 
 // c04CrashResult reads what a dead worker left on stderr
 func c04CrashResult(id, lastOp string, stderr string) c04Result {
@@ -284,12 +284,12 @@ func init() {
 		if len(seeds) < 30 {
 			return fmt.Errorf("only %d seed schemas found under testdata/ (cwd must be the cog repository)", len(seeds))
 		}
-		tables, source, err := cfgLoad(args["facts"])
+		tables, source, err := c04CfgLoad(args["facts"])
 		if err != nil {
 			return fmt.Errorf("config key tables: %w", err)
 		}
-		fmt.Fprintf(os.Stderr, "c04-run: %d seeds, config tables from %s (%s), %d workers\n", len(seeds), source, strings.Join(cfgSortedNames(tables), ","), pool.workers)
-		fault := argInt(args, "fault", 6)
+		fmt.Fprintf(os.Stderr, "c04-run: %d seeds, config tables from %s (%s), %d workers\n", len(seeds), source, strings.Join(c04CfgSortedNames(tables), ","), pool.workers)
+		faultArg := argInt(args, "fault", -1)
 		depth := argInt(args, "depth", 3)
 		cases := make(chan *c04Case, 256)
 		go func() {
@@ -327,6 +327,11 @@ func init() {
 			rm, ri, rp, rv, rc := newRng(seed*7+1), newRng(seed*7+2), newRng(seed*7+3), newRng(seed*7+4), newRng(seed*7+5)
 			_ = ri
 			for i := 0; i < nmut || i < nir || i < npy || i < nvy || i < ncfg; i++ {
+				// fault rate per node: none / rare / frequent, cycling
+				fault := []int{0, 1, 1, 2, 4, 8}[i%6]
+				if faultArg >= 0 {
+					fault = faultArg
+				}
 				if i < nmut {
 					cases <- c04MutCase(rm, seeds, i)
 				}
